@@ -1,10 +1,689 @@
-import DryocVerif.Model.SecretBox
+import DryocVerif.Proofs.SecretBox
+import DryocVerif.Properties.C01
+/-
+C02 — the decision procedure of opening.
+
+For every opening form, for every instantiation `P` of the primitives and ALL inputs (no
+well-formedness assumption, no cryptographic assumption):
+
+* `*_decision`   : the complete closed form of the function (which branch, which buffer);
+* `*_ok_iff`     : `Ok` iff the ciphertext is long enough, the caller's buffer is large enough and
+                   the authenticator recomputed over the ciphertext equals the presented one;
+                   `*_panic_iff` / `*_never_panics` separate out the slice-bounds panic;
+* `*_ok_buf`     : on `Ok` the buffer is `ciphertext ⊕ keystream[32..]` (followed by the
+                   untouched rest of an over-long buffer);
+* `tag_tamper_rejected_*` : replacing the tag of an accepted ciphertext by any other 16 bytes
+                   gives `Err`;
+* `short_rejected_*` : ciphertexts shorter than the overhead give `Err`;
+* `reject_of_mac_ne_*` : authenticator mismatch gives `Err` with the buffer unchanged;
+* `untampered_accepted_*` : re-export of the round trips of C01.
+
+`expectedTag P key nonce c = P.mac ((P.stream key nonce (32 + c.length)).take 32) c` and
+`cryptXor P key nonce c = xorBytes c ((P.stream key nonce (32 + c.length)).drop 32)` are
+abbreviations defined in `Proofs/SecretBox.lean` (used only in the `*_decision` statements).
+-/
 namespace DryocVerif.Properties.C02
 open DryocVerif DryocVerif.Model.SecretBox
+open DryocVerif.Proofs.SecretBox
 
-/-- short ciphertexts are rejected with the caller's buffer untouched -/
-theorem openEasy_short (P : Prims) (m ct nonce key : Bytes) (h : ct.length < 16) :
-    openEasy P m ct nonce key = ⟨.err, m⟩ := by
-  simp [openEasy, MACBYTES, h]
+/-! ## crypto_secretbox_open_detached_inplace -/
+
+theorem openDetachedInplace_decision (P : Prims) (data mac n k : Bytes) :
+    openDetachedInplace P data mac n k
+      = if mac = expectedTag P k n data then ⟨.ok (), cryptXor P k n data⟩ else ⟨.err, data⟩ :=
+  openDetachedInplace_eq P data mac n k
+
+theorem openDetachedInplace_ok_iff (P : Prims) (data mac n k : Bytes) :
+    (openDetachedInplace P data mac n k).res = .ok () ↔
+      P.mac ((P.stream k n (32 + data.length)).take 32) data = mac := by
+  rw [openDetachedInplace_eq, expectedTag_def]
+  repeat' split
+  all_goals simp_all [eq_comm]
+
+theorem openDetachedInplace_never_panics (P : Prims) (data mac n k : Bytes) :
+    (openDetachedInplace P data mac n k).res ≠ .panic := by
+  rw [openDetachedInplace_eq]
+  repeat' split
+  all_goals simp
+
+theorem openDetachedInplace_ok_buf (P : Prims) (data mac n k : Bytes)
+    (h : (openDetachedInplace P data mac n k).res = .ok ()) :
+    (openDetachedInplace P data mac n k).buf
+      = xorBytes data ((P.stream k n (32 + data.length)).drop 32) := by
+  rw [openDetachedInplace_eq] at h ⊢
+  rw [cryptXor_def]
+  repeat' split
+  all_goals simp_all
+
+theorem reject_of_mac_ne_openDetachedInplace (P : Prims) (data mac n k : Bytes)
+    (hne : P.mac ((P.stream k n (32 + data.length)).take 32) data ≠ mac) :
+    openDetachedInplace P data mac n k = ⟨.err, data⟩ := by
+  rw [openDetachedInplace_eq, expectedTag_def]
+  rw [if_neg (fun h => hne h.symm)]
+
+theorem tag_tamper_rejected_openDetachedInplace (P : Prims) (data mac mac' n k : Bytes)
+    (hacc : (openDetachedInplace P data mac n k).res = .ok ()) (hne : mac' ≠ mac) :
+    openDetachedInplace P data mac' n k = ⟨.err, data⟩ := by
+  have h := (openDetachedInplace_ok_iff P data mac n k).1 hacc
+  exact reject_of_mac_ne_openDetachedInplace P data mac' n k (by rw [h]; exact fun e => hne e.symm)
+
+/-! ## crypto_secretbox_open_detached -/
+
+theorem openDetached_decision (P : Prims) (buf mac c n k : Bytes) :
+    openDetached P buf mac c n k
+      = if buf.length < c.length then ⟨.panic, buf⟩
+        else if mac = expectedTag P k n c
+          then ⟨.ok (), cryptXor P k n c ++ buf.drop c.length⟩
+          else ⟨.err, buf⟩ :=
+  openDetached_eq P buf mac c n k
+
+theorem openDetached_ok_iff (P : Prims) (buf mac c n k : Bytes) :
+    (openDetached P buf mac c n k).res = .ok () ↔
+      c.length ≤ buf.length ∧ P.mac ((P.stream k n (32 + c.length)).take 32) c = mac := by
+  rw [openDetached_eq, expectedTag_def]
+  repeat' split
+  all_goals simp_all [eq_comm]
+  all_goals omega
+
+theorem openDetached_panic_iff (P : Prims) (buf mac c n k : Bytes) :
+    (openDetached P buf mac c n k).res = .panic ↔ buf.length < c.length := by
+  rw [openDetached_eq]
+  repeat' split
+  all_goals simp_all
+
+theorem openDetached_ok_buf (P : Prims) (buf mac c n k : Bytes)
+    (h : (openDetached P buf mac c n k).res = .ok ()) :
+    (openDetached P buf mac c n k).buf
+      = xorBytes c ((P.stream k n (32 + c.length)).drop 32) ++ buf.drop c.length := by
+  rw [openDetached_eq] at h ⊢
+  rw [cryptXor_def]
+  repeat' split
+  all_goals simp_all
+
+theorem reject_of_mac_ne_openDetached (P : Prims) (buf mac c n k : Bytes)
+    (hbuf : c.length ≤ buf.length)
+    (hne : P.mac ((P.stream k n (32 + c.length)).take 32) c ≠ mac) :
+    openDetached P buf mac c n k = ⟨.err, buf⟩ := by
+  rw [openDetached_eq, expectedTag_def]
+  rw [if_neg (by omega), if_neg (fun h => hne h.symm)]
+
+theorem tag_tamper_rejected_openDetached (P : Prims) (buf mac mac' c n k : Bytes)
+    (hacc : (openDetached P buf mac c n k).res = .ok ()) (hne : mac' ≠ mac) :
+    openDetached P buf mac' c n k = ⟨.err, buf⟩ := by
+  obtain ⟨hb, h⟩ := (openDetached_ok_iff P buf mac c n k).1 hacc
+  exact reject_of_mac_ne_openDetached P buf mac' c n k hb (by rw [h]; exact fun e => hne e.symm)
+
+/-! ## crypto_secretbox_open_easy -/
+
+theorem openEasy_decision (P : Prims) (buf ct n k : Bytes) :
+    openEasy P buf ct n k
+      = if ct.length < 16 then ⟨.err, buf⟩
+        else if buf.length < ct.length - 16 then ⟨.panic, buf⟩
+        else if ct.take 16 = expectedTag P k n (ct.drop 16)
+          then ⟨.ok (), cryptXor P k n (ct.drop 16) ++ buf.drop (ct.length - 16)⟩
+          else ⟨.err, buf⟩ :=
+  openEasy_eq P buf ct n k
+
+theorem openEasy_ok_iff (P : Prims) (buf ct n k : Bytes) :
+    (openEasy P buf ct n k).res = .ok () ↔
+      16 ≤ ct.length ∧ ct.length - 16 ≤ buf.length ∧
+      P.mac ((P.stream k n (32 + (ct.length - 16))).take 32) (ct.drop 16) = ct.take 16 := by
+  rw [openEasy_eq, expectedTag_def, List.length_drop]
+  repeat' split
+  all_goals simp_all [eq_comm]
+  all_goals omega
+
+/-- the slice-bounds panic: a long-enough ciphertext with a too-small message buffer
+(checked before the authenticator) -/
+theorem openEasy_panic_iff (P : Prims) (buf ct n k : Bytes) :
+    (openEasy P buf ct n k).res = .panic ↔ 16 ≤ ct.length ∧ buf.length < ct.length - 16 := by
+  rw [openEasy_eq]
+  repeat' split
+  all_goals simp_all
+  all_goals omega
+
+theorem openEasy_err_iff (P : Prims) (buf ct n k : Bytes) :
+    (openEasy P buf ct n k).res = .err ↔
+      ct.length < 16 ∨ (ct.length - 16 ≤ buf.length ∧
+        P.mac ((P.stream k n (32 + (ct.length - 16))).take 32) (ct.drop 16) ≠ ct.take 16) := by
+  rw [openEasy_eq, expectedTag_def, List.length_drop]
+  repeat' split
+  all_goals simp_all [eq_comm]
+  all_goals omega
+
+theorem openEasy_ok_buf (P : Prims) (buf ct n k : Bytes)
+    (h : (openEasy P buf ct n k).res = .ok ()) :
+    (openEasy P buf ct n k).buf
+      = xorBytes (ct.drop 16) ((P.stream k n (32 + (ct.length - 16))).drop 32)
+          ++ buf.drop (ct.length - 16) := by
+  rw [openEasy_eq] at h ⊢
+  rw [cryptXor_def, List.length_drop]
+  repeat' split
+  all_goals simp_all
+
+theorem short_rejected_openEasy (P : Prims) (buf ct n k : Bytes) (h : ct.length < 16) :
+    openEasy P buf ct n k = ⟨.err, buf⟩ := by
+  rw [openEasy_eq, if_pos h]
+
+theorem reject_of_mac_ne_openEasy (P : Prims) (buf ct n k : Bytes)
+    (hbuf : ct.length - 16 ≤ buf.length)
+    (hne : P.mac ((P.stream k n (32 + (ct.length - 16))).take 32) (ct.drop 16) ≠ ct.take 16) :
+    openEasy P buf ct n k = ⟨.err, buf⟩ := by
+  rw [openEasy_eq, expectedTag_def, List.length_drop]
+  by_cases h1 : ct.length < 16
+  · rw [if_pos h1]
+  · rw [if_neg h1, if_neg (by omega), if_neg (fun h => hne h.symm)]
+
+theorem tag_tamper_rejected_openEasy (P : Prims) (buf ct t' n k : Bytes)
+    (hacc : (openEasy P buf ct n k).res = .ok ())
+    (hlen : t'.length = 16) (hne : t' ≠ ct.take 16) :
+    openEasy P buf (t' ++ ct.drop 16) n k = ⟨.err, buf⟩ := by
+  obtain ⟨h16, hb, h⟩ := (openEasy_ok_iff P buf ct n k).1 hacc
+  obtain ⟨h1, h2, h3⟩ := combined_parts (c := ct.drop 16) hlen
+  have h4 : (t' ++ ct.drop 16).length - 16 = ct.length - 16 := by
+    rw [h3, List.length_drop]; omega
+  apply reject_of_mac_ne_openEasy
+  · rw [h4]; exact hb
+  · rw [h1, h2, h4, h]; exact fun e => hne e.symm
+
+/-! ## crypto_secretbox_open_easy_inplace -/
+
+theorem openEasyInplace_decision (P : Prims) (ct n k : Bytes) :
+    openEasyInplace P ct n k
+      = if ct.length < 16 then ⟨.err, ct⟩
+        else if ct.take 16 = expectedTag P k n (ct.drop 16)
+          then ⟨.ok (), cryptXor P k n (ct.drop 16) ++ ct.take 16⟩
+          else ⟨.err, ct⟩ :=
+  openEasyInplace_eq P ct n k
+
+theorem openEasyInplace_ok_iff (P : Prims) (ct n k : Bytes) :
+    (openEasyInplace P ct n k).res = .ok () ↔
+      16 ≤ ct.length ∧
+      P.mac ((P.stream k n (32 + (ct.length - 16))).take 32) (ct.drop 16) = ct.take 16 := by
+  rw [openEasyInplace_eq, expectedTag_def, List.length_drop]
+  repeat' split
+  all_goals simp_all [eq_comm]
+  all_goals omega
+
+theorem openEasyInplace_never_panics (P : Prims) (ct n k : Bytes) :
+    (openEasyInplace P ct n k).res ≠ .panic := by
+  rw [openEasyInplace_eq]
+  repeat' split
+  all_goals simp
+
+/-- on `Ok` the buffer is the plaintext followed by the 16 tag bytes rotated to the end -/
+theorem openEasyInplace_ok_buf (P : Prims) (ct n k : Bytes)
+    (h : (openEasyInplace P ct n k).res = .ok ()) :
+    (openEasyInplace P ct n k).buf
+      = xorBytes (ct.drop 16) ((P.stream k n (32 + (ct.length - 16))).drop 32) ++ ct.take 16 := by
+  rw [openEasyInplace_eq] at h ⊢
+  rw [cryptXor_def, List.length_drop]
+  repeat' split
+  all_goals simp_all
+
+theorem short_rejected_openEasyInplace (P : Prims) (ct n k : Bytes) (h : ct.length < 16) :
+    openEasyInplace P ct n k = ⟨.err, ct⟩ := by
+  rw [openEasyInplace_eq, if_pos h]
+
+theorem reject_of_mac_ne_openEasyInplace (P : Prims) (ct n k : Bytes)
+    (hne : P.mac ((P.stream k n (32 + (ct.length - 16))).take 32) (ct.drop 16) ≠ ct.take 16) :
+    openEasyInplace P ct n k = ⟨.err, ct⟩ := by
+  rw [openEasyInplace_eq, expectedTag_def, List.length_drop]
+  by_cases h1 : ct.length < 16
+  · rw [if_pos h1]
+  · rw [if_neg h1, if_neg (fun h => hne h.symm)]
+
+theorem tag_tamper_rejected_openEasyInplace (P : Prims) (ct t' n k : Bytes)
+    (hacc : (openEasyInplace P ct n k).res = .ok ())
+    (hlen : t'.length = 16) (hne : t' ≠ ct.take 16) :
+    openEasyInplace P (t' ++ ct.drop 16) n k = ⟨.err, t' ++ ct.drop 16⟩ := by
+  obtain ⟨h16, h⟩ := (openEasyInplace_ok_iff P ct n k).1 hacc
+  obtain ⟨h1, h2, h3⟩ := combined_parts (c := ct.drop 16) hlen
+  have h4 : (t' ++ ct.drop 16).length - 16 = ct.length - 16 := by
+    rw [h3, List.length_drop]; omega
+  apply reject_of_mac_ne_openEasyInplace
+  rw [h1, h2, h4, h]; exact fun e => hne e.symm
+
+/-! ## crypto_box_open_* (the same decision under the precomputed key `beforenm P pk sk`) -/
+
+theorem boxOpenDetachedInplace_ok_iff (P : Prims) (data mac n pk sk : Bytes) :
+    (boxOpenDetachedInplace P data mac n pk sk).res = .ok () ↔
+      P.mac ((P.stream (beforenm P pk sk) n (32 + data.length)).take 32) data = mac :=
+  openDetachedInplace_ok_iff P data mac n _
+
+theorem boxOpenDetachedInplace_never_panics (P : Prims) (data mac n pk sk : Bytes) :
+    (boxOpenDetachedInplace P data mac n pk sk).res ≠ .panic :=
+  openDetachedInplace_never_panics P data mac n _
+
+theorem boxOpenDetachedInplace_ok_buf (P : Prims) (data mac n pk sk : Bytes)
+    (h : (boxOpenDetachedInplace P data mac n pk sk).res = .ok ()) :
+    (boxOpenDetachedInplace P data mac n pk sk).buf
+      = xorBytes data ((P.stream (beforenm P pk sk) n (32 + data.length)).drop 32) :=
+  openDetachedInplace_ok_buf P data mac n _ h
+
+theorem reject_of_mac_ne_boxOpenDetachedInplace (P : Prims) (data mac n pk sk : Bytes)
+    (hne : P.mac ((P.stream (beforenm P pk sk) n (32 + data.length)).take 32) data ≠ mac) :
+    boxOpenDetachedInplace P data mac n pk sk = ⟨.err, data⟩ :=
+  reject_of_mac_ne_openDetachedInplace P data mac n _ hne
+
+theorem tag_tamper_rejected_boxOpenDetachedInplace (P : Prims) (data mac mac' n pk sk : Bytes)
+    (hacc : (boxOpenDetachedInplace P data mac n pk sk).res = .ok ()) (hne : mac' ≠ mac) :
+    boxOpenDetachedInplace P data mac' n pk sk = ⟨.err, data⟩ :=
+  tag_tamper_rejected_openDetachedInplace P data mac mac' n _ hacc hne
+
+theorem boxOpenDetached_ok_iff (P : Prims) (buf mac c n pk sk : Bytes) :
+    (boxOpenDetached P buf mac c n pk sk).res = .ok () ↔
+      c.length ≤ buf.length ∧
+      P.mac ((P.stream (beforenm P pk sk) n (32 + c.length)).take 32) c = mac :=
+  openDetached_ok_iff P buf mac c n _
+
+theorem boxOpenDetached_panic_iff (P : Prims) (buf mac c n pk sk : Bytes) :
+    (boxOpenDetached P buf mac c n pk sk).res = .panic ↔ buf.length < c.length :=
+  openDetached_panic_iff P buf mac c n _
+
+theorem boxOpenDetached_ok_buf (P : Prims) (buf mac c n pk sk : Bytes)
+    (h : (boxOpenDetached P buf mac c n pk sk).res = .ok ()) :
+    (boxOpenDetached P buf mac c n pk sk).buf
+      = xorBytes c ((P.stream (beforenm P pk sk) n (32 + c.length)).drop 32)
+          ++ buf.drop c.length :=
+  openDetached_ok_buf P buf mac c n _ h
+
+theorem reject_of_mac_ne_boxOpenDetached (P : Prims) (buf mac c n pk sk : Bytes)
+    (hbuf : c.length ≤ buf.length)
+    (hne : P.mac ((P.stream (beforenm P pk sk) n (32 + c.length)).take 32) c ≠ mac) :
+    boxOpenDetached P buf mac c n pk sk = ⟨.err, buf⟩ :=
+  reject_of_mac_ne_openDetached P buf mac c n _ hbuf hne
+
+theorem tag_tamper_rejected_boxOpenDetached (P : Prims) (buf mac mac' c n pk sk : Bytes)
+    (hacc : (boxOpenDetached P buf mac c n pk sk).res = .ok ()) (hne : mac' ≠ mac) :
+    boxOpenDetached P buf mac' c n pk sk = ⟨.err, buf⟩ :=
+  tag_tamper_rejected_openDetached P buf mac mac' c n _ hacc hne
+
+theorem boxOpenEasy_ok_iff (P : Prims) (buf ct n pk sk : Bytes) :
+    (boxOpenEasy P buf ct n pk sk).res = .ok () ↔
+      16 ≤ ct.length ∧ ct.length - 16 ≤ buf.length ∧
+      P.mac ((P.stream (beforenm P pk sk) n (32 + (ct.length - 16))).take 32) (ct.drop 16)
+        = ct.take 16 :=
+  openEasy_ok_iff P buf ct n _
+
+theorem boxOpenEasy_panic_iff (P : Prims) (buf ct n pk sk : Bytes) :
+    (boxOpenEasy P buf ct n pk sk).res = .panic ↔ 16 ≤ ct.length ∧ buf.length < ct.length - 16 :=
+  openEasy_panic_iff P buf ct n _
+
+theorem boxOpenEasy_ok_buf (P : Prims) (buf ct n pk sk : Bytes)
+    (h : (boxOpenEasy P buf ct n pk sk).res = .ok ()) :
+    (boxOpenEasy P buf ct n pk sk).buf
+      = xorBytes (ct.drop 16) ((P.stream (beforenm P pk sk) n (32 + (ct.length - 16))).drop 32)
+          ++ buf.drop (ct.length - 16) :=
+  openEasy_ok_buf P buf ct n _ h
+
+theorem short_rejected_boxOpenEasy (P : Prims) (buf ct n pk sk : Bytes) (h : ct.length < 16) :
+    boxOpenEasy P buf ct n pk sk = ⟨.err, buf⟩ :=
+  short_rejected_openEasy P buf ct n _ h
+
+theorem reject_of_mac_ne_boxOpenEasy (P : Prims) (buf ct n pk sk : Bytes)
+    (hbuf : ct.length - 16 ≤ buf.length)
+    (hne : P.mac ((P.stream (beforenm P pk sk) n (32 + (ct.length - 16))).take 32) (ct.drop 16)
+      ≠ ct.take 16) :
+    boxOpenEasy P buf ct n pk sk = ⟨.err, buf⟩ :=
+  reject_of_mac_ne_openEasy P buf ct n _ hbuf hne
+
+theorem tag_tamper_rejected_boxOpenEasy (P : Prims) (buf ct t' n pk sk : Bytes)
+    (hacc : (boxOpenEasy P buf ct n pk sk).res = .ok ())
+    (hlen : t'.length = 16) (hne : t' ≠ ct.take 16) :
+    boxOpenEasy P buf (t' ++ ct.drop 16) n pk sk = ⟨.err, buf⟩ :=
+  tag_tamper_rejected_openEasy P buf ct t' n _ hacc hlen hne
+
+theorem boxOpenEasyInplace_ok_iff (P : Prims) (ct n pk sk : Bytes) :
+    (boxOpenEasyInplace P ct n pk sk).res = .ok () ↔
+      16 ≤ ct.length ∧
+      P.mac ((P.stream (beforenm P pk sk) n (32 + (ct.length - 16))).take 32) (ct.drop 16)
+        = ct.take 16 :=
+  openEasyInplace_ok_iff P ct n _
+
+theorem boxOpenEasyInplace_never_panics (P : Prims) (ct n pk sk : Bytes) :
+    (boxOpenEasyInplace P ct n pk sk).res ≠ .panic :=
+  openEasyInplace_never_panics P ct n _
+
+theorem boxOpenEasyInplace_ok_buf (P : Prims) (ct n pk sk : Bytes)
+    (h : (boxOpenEasyInplace P ct n pk sk).res = .ok ()) :
+    (boxOpenEasyInplace P ct n pk sk).buf
+      = xorBytes (ct.drop 16) ((P.stream (beforenm P pk sk) n (32 + (ct.length - 16))).drop 32)
+          ++ ct.take 16 :=
+  openEasyInplace_ok_buf P ct n _ h
+
+theorem short_rejected_boxOpenEasyInplace (P : Prims) (ct n pk sk : Bytes) (h : ct.length < 16) :
+    boxOpenEasyInplace P ct n pk sk = ⟨.err, ct⟩ :=
+  short_rejected_openEasyInplace P ct n _ h
+
+theorem reject_of_mac_ne_boxOpenEasyInplace (P : Prims) (ct n pk sk : Bytes)
+    (hne : P.mac ((P.stream (beforenm P pk sk) n (32 + (ct.length - 16))).take 32) (ct.drop 16)
+      ≠ ct.take 16) :
+    boxOpenEasyInplace P ct n pk sk = ⟨.err, ct⟩ :=
+  reject_of_mac_ne_openEasyInplace P ct n _ hne
+
+theorem tag_tamper_rejected_boxOpenEasyInplace (P : Prims) (ct t' n pk sk : Bytes)
+    (hacc : (boxOpenEasyInplace P ct n pk sk).res = .ok ())
+    (hlen : t'.length = 16) (hne : t' ≠ ct.take 16) :
+    boxOpenEasyInplace P (t' ++ ct.drop 16) n pk sk = ⟨.err, t' ++ ct.drop 16⟩ :=
+  tag_tamper_rejected_openEasyInplace P ct t' n _ hacc hlen hne
+
+/-! ## crypto_box_seal_open: layout `epk(32) ‖ tag(16) ‖ c`, 48 bytes of overhead,
+key `beforenm P epk rsk`, nonce `sealNonce P epk rpk` -/
+
+theorem sealOpen_decision (P : Prims) (buf ct rpk rsk : Bytes) :
+    sealOpen P buf ct rpk rsk
+      = if ct.length < 48 then ⟨.err, buf⟩
+        else if buf.length ≠ ct.length - 48 then ⟨.err, buf⟩
+        else if (ct.drop 32).take 16
+              = expectedTag P (beforenm P (ct.take 32) rsk) (sealNonce P (ct.take 32) rpk) (ct.drop 48)
+          then ⟨.ok (), cryptXor P (beforenm P (ct.take 32) rsk) (sealNonce P (ct.take 32) rpk) (ct.drop 48)⟩
+          else ⟨.err, buf⟩ :=
+  sealOpen_eq P buf ct rpk rsk
+
+theorem sealOpen_ok_iff (P : Prims) (buf ct rpk rsk : Bytes) :
+    (sealOpen P buf ct rpk rsk).res = .ok () ↔
+      48 ≤ ct.length ∧ buf.length = ct.length - 48 ∧
+      P.mac ((P.stream (beforenm P (ct.take 32) rsk) (sealNonce P (ct.take 32) rpk)
+                (32 + (ct.length - 48))).take 32) (ct.drop 48)
+        = (ct.drop 32).take 16 := by
+  rw [sealOpen_eq, expectedTag_def, List.length_drop]
+  repeat' split
+  all_goals simp_all [eq_comm]
+  all_goals omega
+
+/-- the message buffer must have exactly the plaintext length (else `Err`): no panic is possible -/
+theorem sealOpen_never_panics (P : Prims) (buf ct rpk rsk : Bytes) :
+    (sealOpen P buf ct rpk rsk).res ≠ .panic := by
+  rw [sealOpen_eq]
+  repeat' split
+  all_goals simp
+
+theorem sealOpen_ok_buf (P : Prims) (buf ct rpk rsk : Bytes)
+    (h : (sealOpen P buf ct rpk rsk).res = .ok ()) :
+    (sealOpen P buf ct rpk rsk).buf
+      = xorBytes (ct.drop 48)
+          ((P.stream (beforenm P (ct.take 32) rsk) (sealNonce P (ct.take 32) rpk)
+              (32 + (ct.length - 48))).drop 32) := by
+  rw [sealOpen_eq] at h ⊢
+  rw [cryptXor_def, List.length_drop]
+  repeat' split
+  all_goals simp_all
+
+theorem short_rejected_sealOpen (P : Prims) (buf ct rpk rsk : Bytes) (h : ct.length < 48) :
+    sealOpen P buf ct rpk rsk = ⟨.err, buf⟩ := by
+  rw [sealOpen_eq, if_pos h]
+
+theorem wrong_size_rejected_sealOpen (P : Prims) (buf ct rpk rsk : Bytes)
+    (h : buf.length ≠ ct.length - 48) :
+    sealOpen P buf ct rpk rsk = ⟨.err, buf⟩ := by
+  rw [sealOpen_eq, if_pos h]
+  split <;> rfl
+
+/-- unconditional (no sizing hypothesis needed: a wrongly sized buffer is `Err` too) -/
+theorem reject_of_mac_ne_sealOpen (P : Prims) (buf ct rpk rsk : Bytes)
+    (hne : P.mac ((P.stream (beforenm P (ct.take 32) rsk) (sealNonce P (ct.take 32) rpk)
+                (32 + (ct.length - 48))).take 32) (ct.drop 48)
+        ≠ (ct.drop 32).take 16) :
+    sealOpen P buf ct rpk rsk = ⟨.err, buf⟩ := by
+  rw [sealOpen_eq, expectedTag_def, List.length_drop]
+  repeat' split
+  all_goals first | rfl | exact absurd (Eq.symm ‹_›) hne
+
+theorem tag_tamper_rejected_sealOpen (P : Prims) (buf ct t' rpk rsk : Bytes)
+    (hacc : (sealOpen P buf ct rpk rsk).res = .ok ())
+    (hlen : t'.length = 16) (hne : t' ≠ (ct.drop 32).take 16) :
+    sealOpen P buf (ct.take 32 ++ (t' ++ ct.drop 48)) rpk rsk = ⟨.err, buf⟩ := by
+  obtain ⟨h48, hb, h⟩ := (sealOpen_ok_iff P buf ct rpk rsk).1 hacc
+  have he : (ct.take 32).length = 32 := by rw [List.length_take]; omega
+  have h1 : (ct.take 32 ++ (t' ++ ct.drop 48)).take 32 = ct.take 32 := List.take_left' he
+  have h2 : (ct.take 32 ++ (t' ++ ct.drop 48)).drop 32 = t' ++ ct.drop 48 := List.drop_left' he
+  have h3 : (ct.take 32 ++ (t' ++ ct.drop 48)).drop 48 = ct.drop 48 := by
+    rw [← List.append_assoc]
+    exact List.drop_left' (by rw [List.length_append, he, hlen])
+  have h4 : (ct.take 32 ++ (t' ++ ct.drop 48)).length - 48 = ct.length - 48 := by
+    rw [List.length_append, List.length_append, he, hlen, List.length_drop]; omega
+  apply reject_of_mac_ne_sealOpen
+  rw [h1, h2, h3, h4, h, List.take_left' hlen]
+  exact fun e => hne e.symm
+
+/-! ## object layer -/
+
+theorem objDecrypt_decision (P : Prims) (b : Box) (n k : Bytes) :
+    objDecrypt P b n k
+      = if b.tag = expectedTag P k n b.data then .ok (cryptXor P k n b.data) else .err :=
+  objDecrypt_eq P b n k
+
+theorem objDecrypt_ok_iff (P : Prims) (b : Box) (n k m : Bytes) :
+    objDecrypt P b n k = .ok m ↔
+      P.mac ((P.stream k n (32 + b.data.length)).take 32) b.data = b.tag ∧
+      m = xorBytes b.data ((P.stream k n (32 + b.data.length)).drop 32) := by
+  rw [objDecrypt_eq, expectedTag_def, cryptXor_def]
+  repeat' split
+  all_goals simp_all [eq_comm]
+
+theorem objDecrypt_err_iff (P : Prims) (b : Box) (n k : Bytes) :
+    objDecrypt P b n k = .err ↔
+      P.mac ((P.stream k n (32 + b.data.length)).take 32) b.data ≠ b.tag := by
+  rw [objDecrypt_eq, expectedTag_def]
+  repeat' split
+  all_goals simp_all [eq_comm]
+
+theorem objDecrypt_never_panics (P : Prims) (b : Box) (n k : Bytes) :
+    objDecrypt P b n k ≠ .panic := by
+  rw [objDecrypt_eq]
+  repeat' split
+  all_goals simp
+
+theorem tag_tamper_rejected_objDecrypt (P : Prims) (b : Box) (t' n k m : Bytes)
+    (hacc : objDecrypt P b n k = .ok m) (hne : t' ≠ b.tag) :
+    objDecrypt P { b with tag := t' } n k = .err := by
+  obtain ⟨h, -⟩ := (objDecrypt_ok_iff P b n k m).1 hacc
+  rw [objDecrypt_err_iff]
+  simp only
+  rw [h]
+  exact fun e => hne e.symm
+
+theorem objBoxDecrypt_ok_iff (P : Prims) (b : Box) (n pk sk m : Bytes) :
+    objBoxDecrypt P b n pk sk = .ok m ↔
+      P.mac ((P.stream (beforenm P pk sk) n (32 + b.data.length)).take 32) b.data = b.tag ∧
+      m = xorBytes b.data ((P.stream (beforenm P pk sk) n (32 + b.data.length)).drop 32) :=
+  objDecrypt_ok_iff P b n _ m
+
+theorem objBoxDecrypt_err_iff (P : Prims) (b : Box) (n pk sk : Bytes) :
+    objBoxDecrypt P b n pk sk = .err ↔
+      P.mac ((P.stream (beforenm P pk sk) n (32 + b.data.length)).take 32) b.data ≠ b.tag :=
+  objDecrypt_err_iff P b n _
+
+theorem tag_tamper_rejected_objBoxDecrypt (P : Prims) (b : Box) (t' n pk sk m : Bytes)
+    (hacc : objBoxDecrypt P b n pk sk = .ok m) (hne : t' ≠ b.tag) :
+    objBoxDecrypt P { b with tag := t' } n pk sk = .err :=
+  tag_tamper_rejected_objDecrypt P b t' n _ m hacc hne
+
+theorem objUnseal_decision (P : Prims) (b : Box) (rpk rsk : Bytes) :
+    objUnseal P b rpk rsk
+      = match b.epk with
+        | none => .err
+        | some epk =>
+          if b.tag = expectedTag P (beforenm P epk rsk) (sealNonce P epk rpk) b.data
+            then .ok (cryptXor P (beforenm P epk rsk) (sealNonce P epk rpk) b.data) else .err :=
+  objUnseal_eq P b rpk rsk
+
+theorem objUnseal_ok_iff (P : Prims) (b : Box) (rpk rsk m : Bytes) :
+    objUnseal P b rpk rsk = .ok m ↔
+      ∃ epk, b.epk = some epk ∧
+        P.mac ((P.stream (beforenm P epk rsk) (sealNonce P epk rpk)
+                  (32 + b.data.length)).take 32) b.data = b.tag ∧
+        m = xorBytes b.data ((P.stream (beforenm P epk rsk) (sealNonce P epk rpk)
+                  (32 + b.data.length)).drop 32) := by
+  unfold objUnseal
+  cases he : b.epk with
+  | none => simp
+  | some epk =>
+    simp only [Option.some.injEq, exists_eq_left']
+    exact objBoxDecrypt_ok_iff P b _ epk rsk m
+
+theorem objUnseal_no_epk_rejected (P : Prims) (b : Box) (rpk rsk : Bytes) (h : b.epk = none) :
+    objUnseal P b rpk rsk = .err := by
+  unfold objUnseal
+  rw [h]
+
+theorem objUnseal_never_panics (P : Prims) (b : Box) (rpk rsk : Bytes) :
+    objUnseal P b rpk rsk ≠ .panic := by
+  unfold objUnseal
+  cases b.epk with
+  | none => simp
+  | some epk => exact objDecrypt_never_panics P b _ _
+
+theorem tag_tamper_rejected_objUnseal (P : Prims) (b : Box) (t' rpk rsk m : Bytes)
+    (hacc : objUnseal P b rpk rsk = .ok m) (hne : t' ≠ b.tag) :
+    objUnseal P { b with tag := t' } rpk rsk = .err := by
+  unfold objUnseal at hacc ⊢
+  simp only
+  cases he : b.epk with
+  | none => rfl
+  | some epk =>
+    rw [he] at hacc
+    exact tag_tamper_rejected_objBoxDecrypt P b t' _ epk rsk m hacc hne
+
+/-- `from_bytes` / `from_sealed_bytes` reject inputs shorter than the overhead -/
+theorem short_rejected_fromBytes (bs : Bytes) (h : bs.length < 16) : fromBytes bs = .err := by
+  simp [fromBytes, MACBYTES, h]
+
+theorem short_rejected_fromSealedBytes (bs : Bytes) (h : bs.length < 48) :
+    fromSealedBytes bs = .err := by
+  simp [fromSealedBytes, SEALBYTES, h]
+
+/-! ## untampered ciphertexts are accepted (re-export of the C01 round trips) -/
+
+theorem untampered_accepted_openEasy (P : Prims) (wf : WF P) (ct0 buf m n k ct : Bytes)
+    (hct0 : ct0.length = m.length + 16) (hbuf : buf.length = m.length)
+    (hseal : easy P ct0 m n k = .ok ct) :
+    openEasy P buf ct n k = ⟨.ok (), m⟩ :=
+  C01.open_seal_easy P wf ct0 buf m n k ct hct0 hbuf hseal
+
+theorem untampered_accepted_openDetached (P : Prims) (wf : WF P) (ct0 buf m n k c tag : Bytes)
+    (hct0 : ct0.length = m.length) (hbuf : buf.length = m.length)
+    (hseal : detached P ct0 m n k = .ok (c, tag)) :
+    openDetached P buf tag c n k = ⟨.ok (), m⟩ :=
+  C01.open_seal_detached P wf ct0 buf m n k c tag hct0 hbuf hseal
+
+theorem untampered_accepted_openEasyInplace (P : Prims) (wf : WF P) (m t n k ct : Bytes)
+    (ht : t.length = 16) (hseal : easyInplace P (m ++ t) n k = .ok ct) :
+    openEasyInplace P ct n k = ⟨.ok (), m ++ ct.take 16⟩ :=
+  C01.open_seal_easyInplace P wf m t n k ct ht hseal
+
+theorem untampered_accepted_openDetachedInplace (P : Prims) (wf : WF P) (m n k c tag : Bytes)
+    (hseal : detachedInplace P m n k = (c, tag)) :
+    openDetachedInplace P c tag n k = ⟨.ok (), m⟩ :=
+  C01.open_seal_detachedInplace P wf m n k c tag hseal
+
+theorem untampered_accepted_boxOpenEasy (P : Prims) (wf : WF P) (ct0 buf m n pk sk ct : Bytes)
+    (hct0 : ct0.length = m.length + 16) (hbuf : buf.length = m.length)
+    (hseal : boxEasy P ct0 m n pk sk = .ok ct) :
+    boxOpenEasy P buf ct n pk sk = ⟨.ok (), m⟩ :=
+  C01.open_seal_boxEasy P wf ct0 buf m n pk sk ct hct0 hbuf hseal
+
+theorem untampered_accepted_boxOpenDetached (P : Prims) (wf : WF P)
+    (ct0 buf m n pk sk c tag : Bytes)
+    (hct0 : ct0.length = m.length) (hbuf : buf.length = m.length)
+    (hseal : boxDetached P ct0 m n pk sk = .ok (c, tag)) :
+    boxOpenDetached P buf tag c n pk sk = ⟨.ok (), m⟩ :=
+  C01.open_seal_boxDetached P wf ct0 buf m n pk sk c tag hct0 hbuf hseal
+
+theorem untampered_accepted_boxOpenEasyInplace (P : Prims) (wf : WF P) (m t n pk sk ct : Bytes)
+    (ht : t.length = 16) (hseal : boxEasyInplace P (m ++ t) n pk sk = .ok ct) :
+    boxOpenEasyInplace P ct n pk sk = ⟨.ok (), m ++ ct.take 16⟩ :=
+  C01.open_seal_boxEasyInplace P wf m t n pk sk ct ht hseal
+
+theorem untampered_accepted_boxOpenDetachedInplace (P : Prims) (wf : WF P)
+    (m n pk sk c tag : Bytes) (hseal : boxDetachedInplace P m n pk sk = (c, tag)) :
+    boxOpenDetachedInplace P c tag n pk sk = ⟨.ok (), m⟩ :=
+  C01.open_seal_boxDetachedInplace P wf m n pk sk c tag hseal
+
+theorem untampered_accepted_sealOpen (P : Prims) (wf : WF P) (ct0 buf m rpk rsk esk ct : Bytes)
+    (hpk : (P.dhBase esk).length = 32)
+    (hdh : P.dh esk rpk = P.dh rsk (P.dhBase esk))
+    (hct0 : ct0.length = m.length + 48) (hbuf : buf.length = m.length)
+    (hseal : boxSeal P ct0 m rpk esk = .ok ct) :
+    sealOpen P buf ct rpk rsk = ⟨.ok (), m⟩ :=
+  C01.open_seal_boxSeal P wf ct0 buf m rpk rsk esk ct hpk hdh hct0 hbuf hseal
+
+theorem untampered_accepted_objDecrypt (P : Prims) (wf : WF P) (m n k : Bytes) (b : Box)
+    (hseal : objEncrypt P m n k = .ok b) :
+    objDecrypt P b n k = .ok m :=
+  C01.open_seal_obj P wf m n k b hseal
+
+theorem untampered_accepted_objUnseal (P : Prims) (wf : WF P) (m rpk rsk esk : Bytes) (b : Box)
+    (hdh : P.dh esk rpk = P.dh rsk (P.dhBase esk))
+    (hseal : objSeal P m rpk esk = .ok b) :
+    objUnseal P b rpk rsk = .ok m :=
+  C01.open_seal_objSeal P wf m rpk rsk esk b hdh hseal
+
+/-! ## non-vacuity (toy instance): an accepted ciphertext exists, and tampering its tag is rejected -/
+
+section NonVacuity
+
+/-- `5b 58 59 0…0 ‖ 5b 58 59` is the toy secretbox of `01 02 03` -/
+def toyCt : Bytes := [0x5b, 0x58, 0x59, 0, 0, 0, 0, 0, 0, 0, 0, 0, 0, 0, 0, 0, 0x5b, 0x58, 0x59]
+
+example : easy toyPrims (zeros 19) toyMsg toyNonce toyKey = .ok toyCt := by decide
+
+example : openEasy toyPrims (zeros 3) toyCt toyNonce toyKey = ⟨.ok (), toyMsg⟩ := by decide
+
+example : (openEasy toyPrims (zeros 3) toyCt toyNonce toyKey).res = .ok () :=
+  (openEasy_ok_iff toyPrims _ _ _ _).2 (by decide)
+
+example : (openEasy toyPrims [4] toyCt toyNonce toyKey).res = .panic :=
+  (openEasy_panic_iff toyPrims _ _ _ _).2 (by decide)
+
+example : (openEasy toyPrims (zeros 3) (List.replicate 19 1) toyNonce toyKey).res = .err :=
+  (openEasy_err_iff toyPrims _ _ _ _).2 (by decide)
+
+example : openEasy toyPrims (zeros 3) (List.replicate 16 0xff ++ toyCt.drop 16) toyNonce toyKey
+    = ⟨.err, zeros 3⟩ :=
+  tag_tamper_rejected_openEasy toyPrims _ toyCt _ _ _ (by decide) (by decide) (by decide)
+
+example : openEasyInplace toyPrims (List.replicate 16 0xff ++ toyCt.drop 16) toyNonce toyKey
+    = ⟨.err, List.replicate 16 0xff ++ toyCt.drop 16⟩ :=
+  tag_tamper_rejected_openEasyInplace toyPrims toyCt _ _ _ (by decide) (by decide) (by decide)
+
+example : openDetached toyPrims (zeros 3) (List.replicate 16 0xff) (toyCt.drop 16) toyNonce toyKey
+    = ⟨.err, zeros 3⟩ :=
+  tag_tamper_rejected_openDetached toyPrims _ (toyCt.take 16) _ _ _ _ (by decide) (by decide)
+
+example : openDetachedInplace toyPrims (toyCt.drop 16) (List.replicate 16 0xff) toyNonce toyKey
+    = ⟨.err, toyCt.drop 16⟩ :=
+  tag_tamper_rejected_openDetachedInplace toyPrims _ (toyCt.take 16) _ _ _ (by decide) (by decide)
+
+example : boxOpenEasy toyPrims (zeros 3) (List.replicate 16 0xff ++ toyCt.drop 16) toyNonce toySpk toyRsk
+    = ⟨.err, zeros 3⟩ :=
+  tag_tamper_rejected_boxOpenEasy toyPrims _ toyCt _ _ _ _ (by decide) (by decide) (by decide)
+
+example : ∃ ct, boxSeal toyPrims (zeros 51) toyMsg toyRpk toyEsk = .ok ct ∧
+    (sealOpen toyPrims (zeros 3) ct toyRpk toyRsk).res = .ok () ∧
+    sealOpen toyPrims (zeros 3) (ct.take 32 ++ (List.replicate 16 0xff ++ ct.drop 48)) toyRpk toyRsk
+      = ⟨.err, zeros 3⟩ :=
+  ⟨_, rfl, by decide,
+    tag_tamper_rejected_sealOpen toyPrims _ _ _ _ _ (by decide) (by decide) (by decide)⟩
+
+example : openEasy toyPrims (zeros 3) (zeros 15) toyNonce toyKey = ⟨.err, zeros 3⟩ :=
+  short_rejected_openEasy toyPrims _ _ _ _ (by decide)
+
+example : sealOpen toyPrims (zeros 3) (zeros 47) toyRpk toyRsk = ⟨.err, zeros 3⟩ :=
+  short_rejected_sealOpen toyPrims _ _ _ _ (by decide)
+
+example : openEasy toyPrims (zeros 3) (List.replicate 19 1) toyNonce toyKey = ⟨.err, zeros 3⟩ :=
+  reject_of_mac_ne_openEasy toyPrims _ _ _ _ (by decide) (by decide)
+
+example : sealOpen toyPrims (zeros 3) (List.replicate 51 1) toyRpk toyRsk = ⟨.err, zeros 3⟩ :=
+  reject_of_mac_ne_sealOpen toyPrims _ _ _ _ (by decide)
+
+example : ∃ b m, objDecrypt toyPrims b toyNonce toyKey = .ok m ∧
+    objDecrypt toyPrims { b with tag := List.replicate 16 0xff } toyNonce toyKey = .err :=
+  ⟨⟨none, toyCt.take 16, toyCt.drop 16⟩, toyMsg, by decide,
+    tag_tamper_rejected_objDecrypt toyPrims _ _ _ _ toyMsg (by decide) (by decide)⟩
+
+end NonVacuity
 
 end DryocVerif.Properties.C02
